@@ -98,7 +98,7 @@ class Judge:
     def __init__(self, u, col, origin):
         self.u, self.col, self.origin = u, col, origin
         self.sem = rm.RM(u.table, 'sem')
-        self.syn = rm.RM(u.table, 'syn')
+        self.syn = rm.RM(u.table, 'syn', implicit_top=False)
         self.spec = u.spec()
 
     def case_of(self, s, t, what):
